@@ -51,7 +51,8 @@ class Model:
         self.cur_expr = None          # outermost statement expression
         self.handled = 0
         self.macros: dict[str, dict] = {}
-        self._scan(self.tree)
+        for tree in (tmpl.get("files") or {"": self.tree}).values():
+            self._scan(tree)
         self.use_stack: list[int] = []       # eids of active use-macro sites
         self.frames: list[dict] = []         # slot fills per macro invocation
         self.fail_stack: dict[int, list] = {}  # id(exc) -> use_stack snapshot
@@ -73,6 +74,8 @@ class Model:
             except BaseException as exc:
                 self.fail_stack[id(exc)] = list(self.use_stack)
                 raise
+        if k == "load":
+            return ("template", e["file"])
         if k == "lit":
             src = e["src"]
             if src in ("nothing", "None"):
